@@ -174,7 +174,20 @@ func (f *fallback) doFallback(ctx context.Context, qCtx *query_context.Context) 
 	for i := 0; i < 2; i++ {
 		select {
 		case <-ctx.Done():
-			return context.Cause(ctx)
+			// Both cases can be ready. An answer that was queued before ctx was
+			// done is still the answer.
+			for {
+				select {
+				case r := <-respChan:
+					if r == nil {
+						continue
+					}
+					qCtx.SetResponse(r)
+					return nil
+				default:
+				}
+				return context.Cause(ctx)
+			}
 		case r := <-respChan:
 			if r == nil { // One of goroutines finished but failed.
 				continue
